@@ -33,10 +33,10 @@ const (
 )
 
 type dupPosMap struct {
-	file                string
-	copyLine, origLine  int
-	nLines              int
-	copyName, origName  string
+	file               string
+	copyLine, origLine int
+	nLines             int
+	copyName, origName string
 }
 
 var dupPositions []dupPosMap
